@@ -161,6 +161,59 @@ let norm_comp (c : int) (v : n) : n =
 
 exception ModelUB of string
 
+(* ---- C17: an armed fault (kind, k) applies to the next operation.  For the operations the cell-level
+   model covers, the values that will be dropped a second time when the world is dropped are predicted. *)
+let armed : (string * int) option ref = ref None
+
+let fmt_dd (l : (nat * n) list) : string =
+  String.concat " " (List.sort compare (List.map (fun (c, v) -> Printf.sprintf "%d:%s" (int_of_nat c) (string_of_n v)) l))
+
+let predict_fault (w : world) (toks : string list) (k : int) : string =
+  let arr = Array.of_list toks in
+  let fault_of i = if i < 0 then None else Some (nat_of_int i) in
+  match arr.(0) with
+  | "rem" ->
+    (match get_loc w (parse_eid arr.(2)) with
+     | None -> ""
+     | Some (sh, r) ->
+       match find_arch sh w.w_archs with
+       | None -> "?"
+       | Some a ->
+         match p_remove_row (parch_of a []) r (fault_of k) with
+         | Some ((a', _), true) -> fmt_dd (double_drops (fst (p_drop_arch a' None)))
+         | Some ((_, _), false) -> ""
+         | None -> "?")
+  | "clr" ->
+    (* archetypes are cleared in the order the implementation reports; the first panic ends the operation *)
+    let order = if Array.length arr > 3
+      then List.map shape_of_bits (Array.to_list (Array.sub arr 3 (Array.length arr - 3))) else [] in
+    let rec go k = function
+      | [] -> ""
+      | sh :: rest ->
+        (match find_arch sh w.w_archs with
+         | None -> go k rest
+         | Some a ->
+           let cells = List.length a.a_rows * List.length (List.filter (fun b -> b) a.a_shape) in
+           if k >= cells then go (k - cells) rest
+           else
+             let ((a', _), _) = p_clear (parch_of a []) (fault_of k) in
+             fmt_dd (double_drops (fst (p_drop_arch a' None)))) in
+    go k order
+  | "ead" | "wrt" ->
+    (match get_loc w (parse_eid arr.(2)) with
+     | None -> ""
+     | Some (sh, r) ->
+       let c = int_of_string arr.(3) in
+       if not (List.nth sh c) then (if arr.(0) = "ead" then "?" else "")
+       else match find_arch sh w.w_archs with
+         | None -> "?"
+         | Some a ->
+           match p_set (parch_of a []) r (nat_of_int c) N0 (fault_of k) with
+           | Some ((a', _), _) -> fmt_dd (double_drops (fst (p_drop_arch a' None)))
+           | None -> "?")
+  | "drop" -> ""
+  | _ -> "?"
+
 let apply (toks : string list) (buf : Buffer.t) =
   let p fmt = Printf.bprintf buf fmt in
   let arr = Array.of_list toks in
@@ -198,6 +251,15 @@ let apply (toks : string list) (buf : Buffer.t) =
          | OBool b -> ret := "bool " ^ string_of_bool b
          | ORejected -> ret := "rejected")
   in
+  (match !armed, arr.(0) with
+   | Some (kind, k), op when op <> "fault" ->
+     armed := None;
+     let ws = (try u 1 with _ -> 0) in
+     let pd =
+       if kind <> "drop" then "?"
+       else (ensure ws; match !worlds.(ws) with Some w -> (try predict_fault w toks k with _ -> "?") | None -> "") in
+     p "pd %s\n" pd
+   | _ -> ());
   (match arr.(0) with
    | "new" ->
      let ws = u 1 in
@@ -341,6 +403,8 @@ let apply (toks : string list) (buf : Buffer.t) =
              ret := "ok";
              evs := "ev " ^ String.concat " " (List.sort compare (de_events w'))
      end
+   | "fault" -> armed := Some (arr.(1), u 2)
+   | "dbg" -> ()
    | "mde" ->
      (* the source world does not exist: the harness only clears the destination *)
      let src = u 1 and dst = u 2 in
